@@ -433,6 +433,7 @@ func checkC10(c *Ctx) {
 	c.Rule("R8", "decoder state does not leak between messages: the nesting counter is balanced on every path (shared with C11.R4); inline commands are split on the space byte only")
 	c.withAlias(map[string]string{"R4": "R8"}, func() { checkRecursion(c, inputCone(p)) })
 	checkInlineSplit(c, "R8")
+	checkInPlaceTextRewrite(c, "R2")
 
 	// ---------------- R6: ReadSlice's buffer-full branch
 	if readSlice != nil {
